@@ -852,7 +852,13 @@ class AutoSerialize:
         # Helper to handle optional torch tensor restoration
         def maybe_tensor(group, key):
             arr = AutoSerialize._read_array_np(group, key)
-            return torch.from_numpy(arr) if group.attrs.get(f"{key}.torch_save") else arr
+            if group.attrs.get(f"{key}.torch_save"):
+                return torch.from_numpy(arr)
+            # Values written by the dill fallback of _serialize_value (same test as _recursive_load)
+            try:
+                return dill.loads(gzip.decompress(arr.tobytes()))
+            except Exception:
+                return arr
 
         if ctype in ("list", "tuple"):
             # Determine maximum index to reconstruct order and size
